@@ -24,6 +24,11 @@ PROP = dict(
                        "Comdex.C05.pool_buy_amount_on_curve", "Comdex.C05.pool_sell_amount_on_curve",
                        "Comdex.C05.pool_buy_orders_within_reserves_and_curve",
                        "Comdex.C05.pool_sell_orders_within_reserves_and_curve", "Comdex.C05.pool_offers_within_reserves",
+                       "Comdex.C05.ranged_buy_amount_on_curve", "Comdex.C05.ranged_sell_amount_on_curve",
+                       "Comdex.C05.ranged_buy_keeps_product", "Comdex.C05.ranged_sell_keeps_product",
+                       "Comdex.C05.ranged_pool_buy_orders_within_reserves_and_curve",
+                       "Comdex.C05.ranged_pool_sell_orders_within_reserves_and_curve",
+                       "Comdex.C05.ranged_limit_orders_covered", "Comdex.C05.ranged_pool_offers_within_reserves",
                        "Comdex.C05.base_conserved_counterexample"],
     harness_tests=["TestC05", "TestC05Keeper"],
     trusted_base=[KERNEL_TB, HARNESS_TB, DEC_TB,
